@@ -21,8 +21,9 @@ from perception_eval.common.dataset import FrameGroundTruth  # noqa: E402
 from perception_eval.evaluation.matching import MatchingMode  # noqa: E402
 from perception_eval.evaluation.matching.object_matching import MatchingLabelPolicy  # noqa: E402
 
-AW = {m.value: m for m in AutowareLabel}
-TL = {m.value: m for m in TrafficLightLabel}
+# (keyed by the declared member names as well: a member that became an alias of another one is still found under its own name)
+AW = {**{n.lower(): m for n, m in AutowareLabel.__members__.items()}, **{m.value: m for m in AutowareLabel}}
+TL = {**{n.lower(): m for n, m in TrafficLightLabel.__members__.items()}, **{m.value: m for m in TrafficLightLabel}}
 MODES = {
     "center": MatchingMode.CENTERDISTANCE,
     "plane": MatchingMode.PLANEDISTANCE,
@@ -32,8 +33,17 @@ MODES = {
 POLICIES = {p.value: p for p in MatchingLabelPolicy}
 
 
+# dataset categories that the documented table converts to `unknown`: an unknown object carries one of them as its original name
+UNKNOWN_NAMES = ["unknown", "animal", "forklift", "movable_object.trafficcone", "static_object.bollard"]
+_unknown_count = [0]
+
+
 def aw_label(name: str, attributes=()):
-    return Label(AW[name], name, list(attributes))
+    raw = name
+    if name == "unknown":
+        _unknown_count[0] += 1
+        raw = UNKNOWN_NAMES[_unknown_count[0] % len(UNKNOWN_NAMES)]
+    return Label(AW[name], raw, list(attributes))
 
 
 def tl_label(name: str):
